@@ -141,17 +141,39 @@ impl<R: io::Read> Reader<R> {
     }
 }
 
-type GffRecordInner = (
-    String,
-    String,
-    String,
-    u64,
-    u64,
-    String,
-    String,
-    Phase,
-    String,
-);
+/// The nine columns of a GFF line. Deserialized positionally (the reader has
+/// no headers); `extra_columns` rejects lines with more than nine columns.
+#[derive(Deserialize)]
+struct GffRecordInner {
+    seqname: String,
+    source: String,
+    feature_type: String,
+    start: u64,
+    end: u64,
+    score: String,
+    strand: String,
+    phase: Phase,
+    raw_attributes: String,
+    #[serde(default)]
+    #[allow(dead_code)]
+    extra_columns: NoExtraColumns,
+}
+
+/// Placeholder behind the ninth column: absent on a well-formed line,
+/// deserializing it (i.e. a tenth column exists) is an error.
+#[derive(Default)]
+struct NoExtraColumns;
+
+impl<'de> Deserialize<'de> for NoExtraColumns {
+    fn deserialize<D>(_deserializer: D) -> Result<Self, D::Error>
+    where
+        D: Deserializer<'de>,
+    {
+        Err(serde::de::Error::custom(
+            "GFF record must have exactly 9 columns",
+        ))
+    }
+}
 
 #[derive(Debug, PartialEq, Eq, Clone, Default)]
 pub struct Phase(Option<u8>);
@@ -287,17 +309,18 @@ impl<'a, R: io::Read> Iterator for Records<'a, R> {
     fn next(&mut self) -> Option<csv::Result<Record>> {
         self.inner.next().map(|res| {
             res.map(
-                |(
-                    seqname,
-                    source,
-                    feature_type,
-                    start,
-                    end,
-                    score,
-                    strand,
-                    phase,
-                    raw_attributes,
-                )| {
+                |GffRecordInner {
+                     seqname,
+                     source,
+                     feature_type,
+                     start,
+                     end,
+                     score,
+                     strand,
+                     phase,
+                     raw_attributes,
+                     ..
+                 }| {
                     let trim_quotes = |s: &str| s.trim_matches('\'').trim_matches('"').to_owned();
                     let mut attributes = MultiMap::new();
                     for caps in self.attribute_re.captures_iter(&raw_attributes) {
